@@ -35,8 +35,9 @@ let handle (line : string) : string =
     let is_hc = (List.hd toks = "HC") in
     let t = { t_enabled = true; t_verify_peer = (get a "verify" = "1"); t_has_ca = (get a "anchor" <> "none");
               t_min_version = ver_of (get a "cmin") } in
-    (* HttpClient resolves the name itself and hands the engine an address *)
-    let host_is_name = (not is_hc) && get a "host" = "name" in
+    (* HttpClient resolves the name itself, hands the engine an address and passes the URL's host (a name in every HC
+       cell: https://localhost) along as the TLS server name *)
+    let host_is_name = if is_hc then http_client_name_known true else peer_name_known (get a "host" = "name") (get a "host" = "ipname") in
     let r = client_session_ok chain_ok valid_now name_ok t host_is_name (get a "anchor") () (get a "cert")
         (ver_or V10 (get a "pmin")) (ver_or V13 (get a "pmax")) in
     if is_hc then (match r with Some _ -> "ok=1" | None -> "ok=0")
